@@ -288,6 +288,10 @@ get_ws_frame(unsigned char *in_buffer, size_t buf_len,
 	if ((opcode >= 3 && opcode <= 7) || (opcode >= 0xb))
 		return ERROR_FRAME;
 
+	/* control frames must not be fragmented */
+	if (opcode >= 0x8 && !fin)
+		return ERROR_FRAME;
+
 	if (opcode <= 0x3 && !fin) {
 		/* first or middle fragment; *out_type tells them apart */
 		*out_opcode = opcode;
